@@ -81,7 +81,7 @@ NA_REASON = "check not built yet (work in progress; see DESIGN.md for the planne
 
 def main():
     commits = subprocess.run(["git","-C","/repo","log","--format=%h %s"],capture_output=True,text=True).stdout.splitlines()
-    hook_commits = [c.split()[0] for c in commits if not c.split(' ',1)[1].startswith('fix:') and 'snapshot' not in c]
+    hook_commits = [c.split()[0] for c in commits if not c.split(' ',1)[1].startswith('fix:') and c.split(' ',1)[1].strip() != 'snapshot']
     m = {"version":1,
       "setup_cmd":"./check build",
       "hooks":{"guard":"verif-hooks","enable":"cargo feature: the harness crate depends on discv5 = { path = \"/repo\", features = [\"verif-hooks\"] }; every check rebuilds it from /repo's working tree",
